@@ -25,6 +25,14 @@ THEOREMS = {
         "MG.C13.duplicate_post",
         "MG.C13.mkDupGraph_discards_family_grads",
     ],
+    "MG.Proofs.Lemmas.InPlaceViewFail": [
+        "MG.C04V.inplace_through_view_failure_leaves_no_trace",
+        "MG.C04V.inplace_on_base_with_view_failure_leaves_no_trace",
+        "MG.C04V.restore_two_inverts",
+        "MG.C04V.restore_after_copy",
+        "MG.C04V.mutate_two_fail",
+        "MG.C04V.mutate_base2_fail",
+    ],
     "MG.Proofs.Lemmas.InPlaceRefine": [
         "MG.C04R.inplace_on_owner_failure_leaves_no_trace",
         "MG.C04R.mutate_single_fail",
